@@ -680,5 +680,5 @@ func TestEnum(t *testing.T) {
 }
 
 func TestReplay(t *testing.T) {
-	core.Replay(t, valueCheck, eachCheck, modesCheck, lenCheck, handCheck, methodCheck, genCheck, oversizeProbe)
+	core.Replay(t, valueCheck, eachCheck, modesCheck, lenCheck, handCheck, methodCheck, genCheck, oversizeProbe, vecCheck)
 }
